@@ -33,8 +33,8 @@ checks = {
          "Latest value per key unchanged and removed sets within the stated predicates on all calls made.", "Trusted: harness/ref model.", "5/C16"),
  "C17": (H, "exploration", "reference-model monitor + version-byte audit + differential observation against single-version migrations",
          "Messages/NextOffset preserved, versions as requested, mixed == single-version behaviour on all states reached.", "Trusted: harness/ref codec (header sniffing).", "5/C17"),
- "C20": (H, "exploration", "differential observation of backup vs source on reached states",
-         "Every backup taken passed Check and answered like its source.", "Trusted: harness observation code.", "5/C20"),
+ "C20": (H, "exploration", "differential observation of backup vs source on reached states + Backup held at pause points (pkg/vhook) between two copies while Deletes are issued: the backup must equal one state of the source",
+         "Every backup taken passed Check and answered like its source; every backup held between two copies while Deletes were issued equalled the source at one instant of the call.", "Trusted: harness observation code; goroutine wait states for 'the deletes are blocked'.", "5/C20"),
 }
 pending = {
  "C05": "crashmon engine under construction in this commit; will be claimed when it runs",
